@@ -2189,6 +2189,11 @@ func chanFieldKey(ch ssa.Value) string {
 func chanKey(ch ssa.Value) string {
 	key := chanFieldKey(ch)
 	if key == "" {
+		// a local channel that the function also stores into a struct field is that field's channel (T.f): contracts then do
+		// not depend on the name of the local
+		key = chanFieldAlias(ch)
+	}
+	if key == "" {
 		// a channel held in a local (possibly captured) variable: "local:<function>.<variable>"
 		fn := valueFunc(ch)
 		if fn != nil {
@@ -2872,4 +2877,64 @@ func (g *vcgen) frameCheckEvent(ev string) {
 		return
 	}
 	g.obligeAt("frame", "event "+ev, "", "false", "the function may emit ghost event "+ev+" but its modifies clause does not list events("+ev+")")
+}
+
+// chanFieldAlias: ch is a load of a local variable cell (possibly captured by a closure); if the function that owns the cell stores
+// a load of the same cell into a struct field, the channel is known by that field: "<struct type>.<field>"
+func chanFieldAlias(ch ssa.Value) string {
+	ld, ok := ch.(*ssa.UnOp)
+	if !ok || ld.Op != token.MUL {
+		return ""
+	}
+	cell := ld.X
+	for depth := 0; depth < 4; depth++ {
+		fv, isFV := cell.(*ssa.FreeVar)
+		if !isFV {
+			break
+		}
+		fn := fv.Parent()
+		parent := fn.Parent()
+		if parent == nil {
+			return ""
+		}
+		idx := -1
+		for i, v := range fn.FreeVars {
+			if v == fv {
+				idx = i
+			}
+		}
+		var bound ssa.Value
+		for _, b := range parent.Blocks {
+			for _, ins := range b.Instrs {
+				if mc, ok := ins.(*ssa.MakeClosure); ok && mc.Fn == fn && idx >= 0 && idx < len(mc.Bindings) {
+					bound = mc.Bindings[idx]
+				}
+			}
+		}
+		if bound == nil {
+			return ""
+		}
+		cell = bound
+	}
+	al, ok := cell.(*ssa.Alloc)
+	if !ok || al.Referrers() == nil {
+		return ""
+	}
+	for _, ref := range *al.Referrers() {
+		l, ok := ref.(*ssa.UnOp)
+		if !ok || l.Op != token.MUL || l.Referrers() == nil {
+			continue
+		}
+		for _, use := range *l.Referrers() {
+			st, ok := use.(*ssa.Store)
+			if !ok || st.Val != l {
+				continue
+			}
+			if fa, ok := st.Addr.(*ssa.FieldAddr); ok {
+				t := fa.X.Type().Underlying().(*types.Pointer).Elem()
+				return typeName(t) + "." + t.Underlying().(*types.Struct).Field(fa.Field).Name()
+			}
+		}
+	}
+	return ""
 }
